@@ -286,6 +286,20 @@ class FileSeam:
         def _os_close(fd):
             seam.fds.pop(fd, None)
             return orig_os_close(fd)
+        self._orig["os_fsync"] = os.fsync
+        orig_fsync = os.fsync
+
+        def _os_fsync(fd):
+            # descriptors opened through os.open under the root (e.g. a directory that is synced
+            # after a rename) and file objects' descriptors alike
+            p = seam.fds.get(fd if isinstance(fd, int) else getattr(fd, "fileno", lambda: -1)())
+            if p is not None and seam.root is not None:
+                seam.ops.append(("fsync", p))
+                flt = seam._take("fsync", p)
+                if flt is not None:
+                    raise seam._err(flt, p)
+            return orig_fsync(fd)
+        os.fsync = _os_fsync
         os.open, os.write, os.close = _os_open, _os_write, _os_close
         os.replace = wrap2("replace", "replace")
         os.rename = wrap2("rename", "replace")
@@ -306,6 +320,7 @@ class FileSeam:
         os.open = self._orig["os_open"]
         os.write = self._orig["os_write"]
         os.close = self._orig["os_close"]
+        os.fsync = self._orig["os_fsync"]
         self.installed = False
 
     def arm(self, root, plan):
